@@ -255,10 +255,13 @@ class FJSP(Adapter):
                     nops = [e - s + 1 for s, e in zip(so, eo)]
                     pt = [[int(x) for x in row] for row in td["proc_times"][r].tolist()]
                     rows.append(_inst_pt(len(nops), len(pt), len(pt[0]), nops, pt, False, self.jssp))
-                # the adapter's tensors must be the generator's tensors, bit for bit
+                # the adapter's tensors should be the generator's tensors, bit for bit; where they are not, the instance
+                # carries the generator's own rows ("as delivered") and the environment is run on THOSE: what a user gets
                 mine = self.to_td(rows)
                 for k in ("start_op_per_job", "end_op_per_job", "proc_times", "pad_mask"):
-                    assert mine[k].dtype == td[k].dtype and torch.equal(mine[k], td[k]), k
+                    if not (mine[k].dtype == td[k].dtype and torch.equal(mine[k], td[k])):
+                        for r, i in enumerate(rows):
+                            i.setdefault("as_delivered", {})[k] = (td[k][r].tolist(), str(td[k].dtype).replace("torch.", ""))
                 for i in rows:
                     out.append(i)
                     if i["N"] <= nmax:
@@ -299,11 +302,18 @@ class FJSP(Adapter):
             so.append(s)
             eo.append(e)
             pm.append([o >= c for o in range(i["P"])])
-        return TensorDict({"start_op_per_job": torch.tensor(so, dtype=torch.int64),
-                           "end_op_per_job": torch.tensor(eo, dtype=torch.int64),
-                           "proc_times": torch.tensor([i["pt"] for i in insts], dtype=torch.float32),
-                           "pad_mask": torch.tensor(pm, dtype=torch.bool)},
-                          batch_size=[len(insts)])
+        td = TensorDict({"start_op_per_job": torch.tensor(so, dtype=torch.int64),
+                         "end_op_per_job": torch.tensor(eo, dtype=torch.int64),
+                         "proc_times": torch.tensor([i["pt"] for i in insts], dtype=torch.float32),
+                         "pad_mask": torch.tensor(pm, dtype=torch.bool)},
+                        batch_size=[len(insts)])
+        for r, i in enumerate(insts):
+            for k, (rows, dt) in i.get("as_delivered", {}).items():
+                if all(k in j.get("as_delivered", {}) for j in insts) and r == 0:
+                    td[k] = torch.tensor([j["as_delivered"][k][0] for j in insts], dtype=getattr(torch, dt))
+                elif not all(k in j.get("as_delivered", {}) for j in insts):
+                    td[k][r] = torch.tensor(rows, dtype=td[k].dtype)
+        return td
 
     @staticmethod
     def _ints(t):
